@@ -20,6 +20,8 @@ SPECIFIC = [('(1/0)', '#DIV/0!', 'operator'), ('(2/(1-1))', '#DIV/0!', 'operator
             ('NA()', '#N/A', 'builtin-returns'), ('SQRT("q")', '#VALUE!', 'builtin-returns'), ('INDEX({1,2},5)', '#REF!', 'builtin-returns'),
             ('SUM(1/0)', '#DIV/0!', 'SUM-raises'), ('MAX({1,2},NA())', '#N/A', 'MAX-raises'), ('MOD(5,0)', '#DIV/0!', 'builtin-returns'),
             # a divisor that is zero only after conversion (the date with serial 0), an array-length mismatch, a date result before 1900: errors the operators make themselves
+            ('SUM({1,1/0})', '#DIV/0!', 'SUM-raises'), ('MAX({1,NA()})', '#N/A', 'MAX-raises'), ('AVERAGE({1,2},{3,1/0})', '#DIV/0!', 'SUM-raises'), ('SUM({1,{2,NA()}})', '#N/A', 'SUM-raises'), ('PRODUCT(v_earr)', '#REF!', 'PRODUCT-raises'),
+            ('PRAISE()', '#REF!', 'host-raises'), ('ORAISE(1)', '#NUM!', 'host-raises'),
             ('(1/DATE(1900,1,1))', '#DIV/0!', 'operator'), ('({1,2}+{1,2,3})', '#VALUE!', 'operator'), ('(v_arr*{1,2})', '#VALUE!', 'operator'), ('(DATE(1900,1,5)-10)', '#NUM!', 'operator'), ('(5/"0")', '#DIV/0!', 'operator')]
 
 
@@ -74,7 +76,17 @@ def make_env(debug=False):
         vars_['v_e%s' % 'abcdefgh'[i]] = sing[i]
         cells['E%d' % (i + 1)] = sing[i]
     vars_['v_weird'] = err.XLError('#WEIRD')
-    return Env(vars=vars_, cells=cells, ranges={'A1:B2': [7, 8]}, funcs={'ERET': lambda k: sing[k], 'ERAISE': eraise, 'ID': lambda x: x, 'HOSTERR': lambda: err.XLError('no such row')}, debug=debug)
+    vars_['v_earr'] = [1, [2, err.REF], 3]
+    import functools
+
+    def raise_code(code):
+        raise err.from_message(code)
+
+    class RaisingObject(object):        # a callable object and a functools.partial: host functions that have no __name__
+        def __call__(self, *a):
+            raise err.NUM
+    return Env(vars=vars_, cells=cells, ranges={'A1:B2': [7, 8]}, funcs={'ERET': lambda k: sing[k], 'ERAISE': eraise, 'ID': lambda x: x, 'HOSTERR': lambda: err.XLError('no such row'),
+                                                                            'PRAISE': functools.partial(raise_code, '#REF!'), 'ORAISE': RaisingObject()}, debug=debug)
 
 
 REF_ENV = {'vars': {'v_a': 4, 'v_b': 9, 'v_arr': [3, 4, 5]}, 'cells': {'B2': 6}, 'ranges': {'A1:B2': [7, 8]}, 'funcs': {}}
